@@ -301,6 +301,12 @@ func (r *replayer) dispatch(line []byte) error {
 			return err
 		}
 		r.evalCase(c)
+	case "PROG":
+		var c ProgCase
+		if err := json.Unmarshal(line, &c); err != nil {
+			return err
+		}
+		r.progCase(c)
 	default:
 		return fmt.Errorf("no replay driver for %s", r.prop)
 	}
